@@ -11,7 +11,7 @@ CHECKS = {
     "C01": (
         "model_checking",
         "exhaustive small-scope enumeration of abstract pages (traces of a line-event scope machine) replayed against the real compiler",
-        "Every abstract single-item page over 16 kind/priority forms x 4 identity forms x bodies of 1..N words from a 10-word alphabet made of prefix look-alikes x 4 tail shapes, and every ordered pair (quick) / pair and triple (thorough) of a 24-item reduced alphabet in 6 layouts plus a 120-item page whose section with a child is followed by a sibling, is rendered, compiled by walk_zorg_page and compared field by field (kind, priority, body, line, ZID, create and modify date, section path, block, count, order - both of the section tree and of Page.notes) with the notes the abstract page denotes. All traces of the model within the bound are replayed on the implementation, so there is no model/code gap inside the bound.",
+        "Every abstract single-item page over 16 kind/priority forms x 4 identity forms x bodies of 1..N words from a 10-word alphabet made of prefix look-alikes x 4 tail shapes, and every ordered pair (quick) / pair and triple (thorough) of a 24-item reduced alphabet in 7 layouts (incl. a page whose body opens with an H2 section) plus a 120-item page whose section with a child is followed by a sibling, is rendered, compiled by walk_zorg_page and compared field by field (kind, priority, body, line, ZID, create and modify date, section path, block, count, order - both of the section tree and of Page.notes) with the notes the abstract page denotes. All traces of the model within the bound are replayed on the implementation, so there is no model/code gap inside the bound.",
         "Trusts the reference model mc/models/zo_model.py and the vetted alphabets; generated parser as committed; larger pages / other words only by the small-scope hypothesis.",
         "§4 C01",
     ),
@@ -25,21 +25,21 @@ CHECKS = {
     "C03": (
         "exploration",
         "exhaustive small-scope enumeration of filter programs x designed indexes on the real compiler + SQL repository, judged by an independent set-algebra evaluator over raw rows",
-        "Every atom of a 189-atom alphabet alone on three indexes and on sub-indexes of a six-note pool, every ordered pair under AND and OR (quick: over a third of the atoms), and every expression shape with up to 3 (thorough: 4) leaves and paren depth 2 over core alphabets is compiled by build_zorg_query and executed by SQLRepo.get_notes_by_query on an index built by the real db create; the returned ZID set (and absence of duplicates) must equal the set computed by mc/models/query_model.holds_* over the rows read back with sqlite3. Single atoms also go through the CLI.",
+        "Every atom of a 197-atom alphabet (file globs incl. page names that begin with the letters of the f= prefix) alone on three indexes and on sub-indexes of a six-note pool, every ordered pair under AND and OR (quick: over a third of the atoms), and every expression shape with up to 3 (thorough: 4) leaves and paren depth 2 over core alphabets is compiled by build_zorg_query and executed by SQLRepo.get_notes_by_query on an index built by the real db create; the returned ZID set (and absence of duplicates) must equal the set computed by mc/models/query_model.holds_* over the rows read back with sqlite3. Single atoms also go through the CLI.",
         "Index contents are designed corpora plus sub-indexes of a pool, not all indexes; typed comparisons only on consistently typed keys; lower-case page names.",
         "§4 C03",
     ),
     "C04": (
         "exploration",
         "exhaustive small-scope enumeration of abstract queries rendered to text and compiled by the real query compiler, compared structurally with the denoted Query",
-        "All select forms, every single atom (all 64 priority-range spellings, every operator/negation/quote/case form), every expression shape up to 3 leaves and paren depth 2, every ^/$ date form (short, d/m/y relative, negative, ranges) on 7 frozen calendar-edge days resolved by hand-written month arithmetic, every relative date spec compiled on two different frozen days in ONE process (nothing resolved against an earlier today may be carried over), all order/group lists up to length 2 (+ longer samples) in both clause orders with every subset of omitted clauses, keyword identifiers, and the CLI normalisation function. Each string must pass a well-formedness gate built from the repo's own generated lexer/parser (0 lexer errors, 0 parser errors, all input consumed); a rejected string is reported, never silently dropped.",
+        "All select forms, every single atom (all 64 priority-range spellings, every operator/negation/quote/case form), every expression shape up to 3 leaves and paren depth 2, every ^/$ date form (short incl. two-digit years on both sides of strptime's %y pivot, d/m/y relative, negative, ranges) on 7 frozen calendar-edge days resolved by hand-written month arithmetic, every relative date spec compiled on two different frozen days in ONE process (nothing resolved against an earlier today may be carried over), all order/group lists up to length 2 (+ longer samples) in both clause orders with every subset of omitted clauses, keyword identifiers, and the CLI normalisation function. Each string must pass a well-formedness gate built from the repo's own generated lexer/parser (0 lexer errors, 0 parser errors, all input consumed); a rejected string is reported, never silently dropped.",
         "Identifiers from the documented alphabet minus reserved tokens and 6-digit date-shaped words; file globs compared in stored form.",
         "§4 C04",
     ),
     "C05": (
         "model_checking",
         "explicit-state exploration of create/reindex histories over an exhaustive family of initial directories, every transition executed by the real CLI",
-        "For every ZID-less item variant (kind x priority x long date x spacing x tail) and every ordered pair of a 12-item alphabet in 8 layouts (incl. same-named pages in sub-directories and a page opening with an H2), with and without a pre-existing next_ids.json at carry points, histories over {create, reindex} (with and without the day advancing) are run through the real CLI in fresh processes; in every state: every note has a ZID, the raw index equals the recompiled files field by field (page, line, section path, block, ZID, kind, priority, body, dates, tags, links, properties), each file equals the original except for predicted first lines of formerly ZID-less items, file_hash.json lists exactly the pages with their current SHA-256, and later runs change nothing.",
+        "For every ZID-less item variant (kind x priority x long date x spacing x tail, plus bodies whose first word looks like a prefix: P1, P15, o, x; leap-day dates and ZIDs) and every ordered pair of a 12-item alphabet in 8 layouts (incl. same-named pages in sub-directories and a page opening with an H2), with and without a pre-existing next_ids.json at carry points, histories over {create, reindex} (with and without the day advancing) are run through the real CLI in fresh processes; in every state: every note has a ZID, the raw index equals the recompiled files field by field (page, line, section path, block, ZID, kind, priority, body, dates, tags, links, properties), each file equals the original except for predicted first lines of formerly ZID-less items, file_hash.json lists exactly the pages with their current SHA-256, and later runs change nothing.",
         "ZID-less items with a hand-written modify date are excluded; trusts M3 (sqlite3 reader) and the line-prediction model.",
         "§4 C05",
     ),
@@ -74,35 +74,35 @@ CHECKS = {
     "C10": (
         "exploration",
         "exhaustive enumeration of (source layout x moved note x ZID mentions x destination shape x marker) through the real CLI on real indexed directories, judged by a line-algebra model and recompilation",
-        "Moved note in 4 forms (incl. one carrying a modify date) x 6 positions x 4 ZID-mention patterns x 3 own-tag patterns x 13 destination shapes (incl. no trailing newline, template-created, ending in a section header, the source page itself) x 3 markers (quick: every value of every dimension in rotation; thorough: the full product of 11,232 moves); each case indexes a real directory with db create and runs `zorg note move` in a fresh process. Source must equal the original minus exactly the note's lines; destination must preserve every old line in order with the note inserted once, contiguously; both pages are recompiled: same set of notes, requested kind, body = old body plus inserted metadata words, tags/properties superset, every other note unchanged. A second family moves notes that were written WITHOUT a ZID (dated/undated, single/multi-line) straight after db create gave them one.",
+        "Moved note in 4 forms (incl. one carrying a modify date) x 6 positions x 4 ZID-mention patterns x 3 own-tag patterns x 14 destination shapes (incl. no trailing newline, template-created, ending in a section header, the source page itself, an existing page whose name also matches a template pattern) x 3 markers (quick: every value of every dimension in rotation; thorough: the full product of 11,232 moves); each case indexes a real directory with db create and runs `zorg note move` in a fresh process. Source must equal the original minus exactly the note's lines; destination must preserve every old line in order with the note inserted once, contiguously; both pages are recompiled: same set of notes, requested kind, body = old body plus inserted metadata words, tags/properties superset, every other note unchanged. A second family moves notes that were written WITHOUT a ZID (dated/undated, single/multi-line) straight after db create gave them one.",
         "Moving into a page that does not exist and has no template must fail without touching the source; inherited links are not required to be carried (the statement names tags and properties).",
         "§4 C10",
     ),
     "C11": (
         "model_checking",
         "explicit-state BFS over edit/reindex/day-advance histories on a real directory with a predictive oracle fed by the previous raw index state",
-        "Breadth-first search (depth 3 from three initial states in quick; depth 5/4/4 in thorough) over 19 events (body, bullet, kind and priority edits incl. done/cancelled todos and a blocked todo with a priority, a note under a section, a second page, a reorder, a new note, header-only edits, reindex, day advance); at every reindex transition the oracle predicts from the previous index rows and the current files exactly which first lines change and how (stamp inserted or replaced before the ZID, ZID inserted for new notes, every other byte identical), compares file bytes, requires index == recompiled files, and requires an immediately following reindex to change nothing. Both directions of the iff are decided on every explored history.",
+        "Breadth-first search (depth 3 from three initial states in quick; depth 5/4/4 in thorough) over 19 events (body, bullet, kind and priority edits incl. done/cancelled todos and a blocked todo with a priority, a note under a section, a second page with the same file name in a sub-directory, a reorder, a new note, header-only edits, reindex, day advance); at every reindex transition the oracle predicts from the previous index rows and the current files exactly which first lines change and how (stamp inserted or replaced before the ZID, ZID inserted for new notes, every other byte identical), compares file bytes, requires index == recompiled files, and requires an immediately following reindex to change nothing. Both directions of the iff are decided on every explored history.",
         "Current files are read through the real compiler (judged by C01); no hand-written stamps; time does not advance inside a command.",
         "§4 C11",
     ),
     "C12": (
         "exploration",
         "exhaustive small-scope enumeration of notes with a differential round-trip oracle (compile -> emit -> compile) on the real code",
-        "Every note of the enumerated single-item family (16 kind/priority forms x 4 identity forms x 1..2 words over 14 words x up to 5 tails) and every ordered pair of the reduced item alphabet is compiled, emitted by the real Note.to_string(), wrapped in a page header, compiled again and compared (kind, ZID, body, own tags/links/properties, dates iff ZID, priority unless done/cancelled); ungrouped S note renderings of a real index under every ordering key list are compiled back and must contain exactly the selected notes in order, also through a refreshed .zoq page; the same on an index that went through a real edit/reindex history and on one whose 45 ZIDs were all handed out by the real allocator.",
+        "Every note of the enumerated single-item family (16 kind/priority forms x 4 identity forms x 1..2 words over 14 words x up to 5 tails) and every ordered pair of the reduced item alphabet is compiled, emitted by the real Note.to_string(), wrapped in a page header, compiled again and compared (kind, ZID, body, own tags/links/properties, dates iff ZID, priority unless done/cancelled); ungrouped S note renderings of a real index under every ordering key list are compiled back and must contain exactly the selected notes in order, also through a refreshed .zoq page (freshly written, and one that was first refreshed with a grouped form of the query); the same on an index that went through a real edit/reindex history and on one whose 45 ZIDs were all handed out by the real allocator.",
         "The first compilation is only the reference for the second (C01 judges it against the written page); index corpus fixed per seed.",
         "§4 C12",
     ),
     "C13": (
         "fault_enumeration",
         "exhaustive crash-point enumeration with an effect-counting interposer (kill before every external effect; torn writes and crash-during-recovery pairs in the thorough tier)",
-        "For 5 scenarios (create with ZID-less notes; reindex with stamp + new note + new pages incl. a sub-directory; reindex of pages sharing a tag; create -f with a broken page; reindex whose changes need no write-back) the real command runs in a child whose file writes, renames, unlinks and SQL commits are counted; for every k the child is killed with os._exit immediately before effect k, the same command is re-run to completion, and the recovery invariant is checked: clean exit, raw index == recompiled files, every note has a ZID, no ZID on two notes, user text multiset unchanged, and files/index/meta equal to the uninterrupted run up to renaming of fresh ZIDs. Thorough adds 0% and 50% torn variants of every file write and all ordered pairs of crash points (crash again during recovery).",
+        "For 6 scenarios (create with ZID-less notes; reindex with stamp + new note + new pages incl. a sub-directory; reindex of pages sharing a tag; create -f with a broken page; reindex whose changes need no write-back; reindex of a page whose notes carry properties and single-use tags, so that removing the old page issues several SQL statements) the real command runs in a child whose file writes, renames, unlinks and SQL commits are counted; for every k the child is killed with os._exit immediately before effect k, the same command is re-run to completion, and the recovery invariant is checked: clean exit, raw index == recompiled files, every note has a ZID, no ZID on two notes, user text multiset unchanged, and files/index/meta equal to the uninterrupted run up to renaming of fresh ZIDs. Thorough adds 0% and 50% torn variants of every file write and all ordered pairs of crash points (crash again during recovery).",
         "SQLite commit atomic (journal trusted); no cross-file write reordering or power loss; mkdir is not a crash point.",
         "§4 C13",
     ),
     "C14": (
         "exploration",
         "exhaustive small-scope enumeration of (rename pair x subsets of confusable link texts) through the real CLI, byte-compared with an independent link-token rewrite",
-        "9 renames (plain, B extends A, A extends B, in / into a sub-directory, same-named files in two directories, absolute paths, base names ending in o / z) x every subset of size <= 2 (quick) / <= 3 (thorough) of 13 link texts confusable with the page name (+ the full set), written into the renamed page, another page, a deep page, a .zot template, a .zoq page and a non-zorg file; the real `zorg file rename` runs in a fresh process; file set and every byte must equal the independent rewrite; compiled link sets must differ by exactly the substitution.",
+        "9 renames (plain, B extends A, A extends B, in / into a sub-directory, same-named files in two directories, absolute paths, base names ending in o / z) x every subset of size <= 2 (quick) / <= 3 (thorough) of 13 link texts confusable with the page name (+ the full set), written into the renamed page, another page, a deep page, a .zot template, a .zoq page, a non-zorg file, and linking files without a final newline, with two final newlines, and with form feed / CRLF / U+2028 separators; the real `zorg file rename` runs in a fresh process; file set and every byte must equal the independent rewrite; compiled link sets must differ by exactly the substitution.",
         "Destination directory exists; closed link texts only.",
         "§4 C14",
     ),
@@ -116,14 +116,14 @@ CHECKS = {
     "C16": (
         "exploration",
         "exhaustive enumeration of ordered pattern maps x targets x flags through the real init_from_template and CLI, judged by an oracle-side jinja2 rendering",
-        "Every ordered pattern map of size <= 2 (quick) / <= 3 (thorough) over 8 patterns (incl. ones that match only a prefix of the name) x 10 targets x {missing, existing} x overwrite x explicit template x 3 variable maps through the real function, plus 10 maps through `zorg template init` with the map read from YAML in order: existing-and-not-forced files keep bytes and mtime, missing files get exactly the oracle's rendering of the first matching pattern's template body, nothing (no file, no directory) is created without a template, and a second invocation changes nothing.",
+        "Every ordered pattern map of size <= 2 (quick) / <= 3 (thorough) over 8 patterns (incl. ones that match only a prefix of the name) x 10 targets x {missing, existing} x overwrite x explicit template x 3 variable maps through the real function, plus 10 maps through `zorg template init` with the map read from YAML in order: existing-and-not-forced files keep bytes and mtime, missing files get exactly the oracle's rendering of the first matching pattern's template body, nothing (no file, no directory) is created without a template, and a second invocation changes nothing. The same contract through `zorg edit TARGET` (a stand-in editor records the file as it is when the editor opens) and `zorg action open` on a line holding [[TARGET]]; and two initialisations in one process where only the first target's pattern captures a variable (function, caller-owned variable map, `zorg edit A B`).",
         "ZorgTemplateManager's process-global scratch directory is re-created per worker; edit / action open / note move reach the same function.",
         "§4 C16",
     ),
     "C17": (
         "exploration",
         "exhaustive enumeration of lines (prefix x target sequence x wrapper) x option indices on the real command, with a scanner/resolver model and a differential single-target oracle",
-        "Every line of the enumerated family, in a .zo and a .zoq page of a directory indexed by the real db create, is passed to the real `action open` (targets incl. an ID:: inherited from a section header by several notes of one page) for every option index in {absent, 1..n, -1, n+1, 0}: output must be protocol lines only, 0 targets => ECHO, >= 2 => PROMPT in line order (primary ZID only in .zoq), a chosen target must resolve as its kind demands (owners taken from the raw index) and behave exactly like a line holding only that target; out-of-range => non-zero exit and no EDIT.",
+        "Every line of the enumerated family, in a .zo and a .zoq page of a directory indexed by the real db create, is passed to the real `action open` (targets incl. an ID:: inherited from a section header by several notes of one page; the index also holds a decoy note that owns another ID/RID and carries the looked-up values under other keys) for every option index in {absent, 1..n, -1, n+1, 0}: output must be protocol lines only, 0 targets => ECHO, >= 2 => PROMPT in line order (primary ZID only in .zoq), a chosen target must resolve as its kind demands (owners taken from the raw index) and behave exactly like a line holding only that target; out-of-range => non-zero exit and no EDIT.",
         "Named-URL and cite-key targets start external programs and are not driven; in-process calls cross-checked against forked CLI processes on a sample.",
         "§4 C17",
     ),
